@@ -1,15 +1,21 @@
-"""C16 correspondence + search: the real SOCKS4 / SOCKS4a / SOCKS5 classes vs the Lean model
-(`drv_c16`), and the property oracle on every implementation trace.
+"""C16 correspondence + search: the real SOCKS4 / SOCKS4a / SOCKS5 classes - driven by hand
+(`next_message` / `receive_data`) and through the public `SOCKSProxy.create_connection` on a fake
+network (several proxy addresses, fall-back after a failure in mid-handshake, concurrent calls
+on one proxy object) - vs the Lean model (`drv_c16`), and the property oracle on every
+implementation trace.
 
 The oracle is written from the property text and the protocol documents only: independent
 *server-side* parsers (SOCKS4.protocol / SOCKS4A.protocol, RFC 1928, RFC 1929) are applied to
-the bytes the client emitted and must recover exactly the destination / credentials that were
-asked for, consuming every byte.  It never looks at the model."""
+the bytes the client emitted - per protocol object, and per proxy connection - and must recover
+exactly the destination / credentials that were asked for, consuming every byte.  It never
+looks at the model, and judges only bytes on the wire and the exceptions escaping the public
+API."""
 import os
 from multiprocessing import Pool
 
 from harness.base import Results
 from harness import socks_common as sc
+from harness import socks_world as sw
 
 # ------------------------------------------------------------------ server-side parsers (spec)
 
@@ -81,25 +87,57 @@ def has_surrogate(s):
     return any(0xD800 <= ord(ch) < 0xE000 for ch in s)
 
 
-def scope(case):
-    """'express' | 'inexpress' | None (outside the property's quantifier), with the reason"""
+LABEL_CHARS = set('abcdefghijklmnopqrstuvwxyzABCDEFGHIJKLMNOPQRSTUVWXYZ0123456789-_')
+
+
+def valid_host_name(name):
+    """the property's quantifier "all valid host names up to 253 characters", written from
+    C18's text: ignoring one trailing dot, 1-253 characters of dot-separated labels of 1-63
+    letters, digits, hyphens or underscores that neither begin nor end with a hyphen and whose
+    last label is not all digits"""
+    if name.endswith('.'):
+        name = name[:-1]
+    if not 1 <= len(name) <= 253:
+        return False
+    labels = name.split('.')
+    for lab in labels:
+        if not 1 <= len(lab) <= 63 or not set(lab) <= LABEL_CHARS or lab[0] == '-' or lab[-1] == '-':
+            return False
+    return not all(ch in '0123456789' for ch in labels[-1])
+
+
+def scope(case, addr_ok=True):
+    """'express' | 'inexpress' | None (outside the property's quantifier), with the reason.
+    addr_ok: the real NetAddress accepted the destination (a name it refuses is not a
+    destination "the client accepts")."""
     proto, host, port, auth = case
     kind = host[0]
     if not 1 <= port <= 65535:
         return None, 'port outside 1..65535'
-    if kind == 'n' and not (1 <= len(host[1]) <= 254 and host[1].isascii() and '\0' not in host[1]):
-        return None, 'not a host name NetAddress would accept'
+    if not addr_ok and not (kind == 'n' and valid_host_name(host[1])):
+        return None, 'NetAddress refuses the destination'
     if auth is not None:
         used = auth[0] if proto != '5' else auth[0] + auth[1]
         if has_surrogate(used):
             # a str holding a lone surrogate is not Unicode text (it has no UTF-8 form)
             return None, 'lone surrogate in credentials'
+    if kind == 'n' and has_surrogate(host[1]):
+        return None, 'lone surrogate in the host name'
     if proto == '4':
         if kind != '4':
             return 'inexpress', 'SOCKS4 can only name an IPv4 destination'
     elif proto == '4a':
-        if kind == '6':
+        if kind in ('6', 'z'):
             return 'inexpress', 'SOCKS4a cannot name an IPv6 destination'
+        if kind == '4' and bytes(host[1][:3]) == b'\0\0\0' and host[1][3] != 0:
+            return 'inexpress', 'SOCKS4a marker: a SOCKS4a server reads DSTIP 0.0.0.x (x != 0) as "a host name follows"'
+        if kind == 'n' and '\0' in host[1]:
+            return 'inexpress', 'a NUL-terminated host name field cannot contain NUL'
+    elif proto == '5':
+        if kind == 'z':
+            return 'inexpress', 'zone: RFC 1928 has no field for the zone of a scoped IPv6 address'
+        if kind == 'n' and not 1 <= len(host[1].encode()) <= 255:
+            return 'inexpress', 'RFC 1928 domain name length not in 1..255'
     if proto in ('4', '4a') and auth is not None and '\0' in auth[0]:
         return 'inexpress', 'a NUL-terminated user id cannot contain NUL'
     if proto == '5' and auth is not None:
@@ -110,29 +148,51 @@ def scope(case):
     return 'express', ''
 
 
+def inexpress_key(reason):
+    if 'NUL-terminated user id' in reason:
+        return 'c16:socks4-nul-userid'
+    if 'marker' in reason:
+        return 'c16:socks4a-marker-address'
+    if 'zone' in reason:
+        return 'c16:socks5-scoped-ipv6'
+    return 'c16:inexpressible-not-rejected'
+
+
 def expected_connect(host, port):
     kind, v = host
     if kind == '4':
         return 1, bytes(v)
-    if kind == '6':
+    if kind in ('6', 'z'):
         return 4, bytes(v)
-    return 3, v.encode('ascii')
+    return 3, v.encode()
 
 
 def msgs_of(raw):
     return [r[1] for r in raw if r[0] == 'msg']
 
 
-def oracle(mods, case, ctor_exc, raws, light=False):
+def methods_ok(g, auth):
+    """RFC 1928 s3 + the property text: 'no authentication' is offered, 'username/password'
+    is offered exactly when credentials were given, nothing else is; the order of the list is
+    not fixed by the RFC"""
+    if g is None or g['ver'] != 5 or g['rest']:
+        return False
+    want = {0, 2} if auth is not None else {0}
+    return set(g['methods']) == want and len(g['methods']) == len(want)
+
+
+def oracle(mods, case, ctor_exc, raws, light=False, addr_ok=True):
     """Returns (key, why) if the property fails on this trace, else None.
     light: for SOCKS5 `raws` holds only the `05 00` dialogue."""
     proto, host, port, auth = case
-    sc_, reason = scope(case)
+    sc_, reason = scope(case, addr_ok)
     if sc_ is None:
         return None
     SOCKSError = mods.socks.SOCKSError
     first = raws[0] if raws else []
     if sc_ == 'inexpress':
+        if not addr_ok:
+            return None     # refused even earlier (NetAddress): nothing was sent
         sent_first = msgs_of(first)
         if ctor_exc is not None:
             if isinstance(ctor_exc, SOCKSError):
@@ -141,8 +201,8 @@ def oracle(mods, case, ctor_exc, raws, light=False):
                     f'{reason}: constructor raised {sc.exc_name(ctor_exc)}, not a SOCKS error')
         if not sent_first and first and first[-1][0] == 'raise' and isinstance(first[-1][1], SOCKSError):
             return None     # refused before the first byte: still "before anything is sent"
-        key = 'c16:socks4-nul-userid' if 'NUL' in reason else 'c16:inexpressible-not-rejected'
-        return key, f'{reason}, but it was accepted and {len(sent_first)} message(s) were emitted'
+        return (inexpress_key(reason),
+                f'{reason}, but it was accepted and {len(sent_first)} message(s) were emitted')
     # expressible: must be accepted and byte-exact
     if ctor_exc is not None:
         return 'c16:expressible-rejected', f'constructor raised {sc.exc_name(ctor_exc)}'
@@ -155,20 +215,8 @@ def oracle(mods, case, ctor_exc, raws, light=False):
         m = msgs_of(first)
         if len(m) != 1:
             return 'c16:socks4-request', f'{len(m)} messages before any reply'
-        marker = host[0] == '4' and bytes(host[1][:3]) == b'\0\0\0' and host[1][3] != 0
-        p = parse_socks4_request(m[0], ext_4a=(proto == '4a' and not marker))
-        if p is None:
-            return 'c16:socks4-request', 'a SOCKS4 server cannot parse the request'
-        if host[0] == '4':
-            want = dict(vn=4, cd=1, port=port, ip=bytes(host[1]), user=user, host=None, rest=b'')
-        else:
-            want = dict(vn=4, cd=1, port=port, ip=b'\0\0\0\1', user=user,
-                        host=host[1].encode('ascii'), rest=b'')
-        if p != want:
-            return 'c16:socks4-request', f'server parses {p}, expected {want}'
-        return None
+        return check_socks4_request(m[0], proto, host, port, user)
     # SOCKS5
-    methods = [0, 2] if auth is not None else [0]
     atyp, addr = expected_connect(host, port)
     want_conn = dict(ver=5, cmd=1, rsv=0, atyp=atyp, addr=addr, port=port, rest=b'')
     for di, raw in enumerate(raws, 1 if light else 0):
@@ -176,8 +224,9 @@ def oracle(mods, case, ctor_exc, raws, light=False):
         if not m:
             return 'c16:socks5-greeting', 'no greeting'
         g = parse_greeting(m[0])
-        if g != dict(ver=5, methods=methods, rest=b''):
-            return 'c16:socks5-greeting', f'server parses greeting {g}, expected methods {methods}'
+        if not methods_ok(g, auth):
+            return ('c16:socks5-greeting',
+                    f'server parses greeting {g}, expected methods {"{0, 2}" if auth is not None else "{0}"}')
         if di == 0:
             if len(m) != 1:
                 return 'c16:socks5-greeting', 'more than the greeting sent before any reply'
@@ -205,25 +254,104 @@ def oracle(mods, case, ctor_exc, raws, light=False):
     return None
 
 
+def check_socks4_request(msg, proto, host, port, user):
+    """a SOCKS4 (SOCKS4a: with the 4a extension) server must read exactly the request asked for"""
+    p = parse_socks4_request(msg, ext_4a=(proto == '4a'))
+    if p is None:
+        return 'c16:socks4-request', f'a {"SOCKS4a" if proto == "4a" else "SOCKS4"} server cannot parse the request'
+    if host[0] == '4':
+        want = dict(vn=4, cd=1, port=port, ip=bytes(host[1]), user=user, host=None, rest=b'')
+    else:
+        want = dict(vn=4, cd=1, port=port, ip=b'\0\0\0\1', user=user, host=host[1].encode(), rest=b'')
+    if p != want:
+        return 'c16:socks4-request', f'server parses {p}, expected {want}'
+    return None
+
+
+def check_connection(case, conn):
+    """Property oracle for ONE proxy connection opened by create_connection for `case`: what the
+    proxy received on it (conn.received) must be the protocol's CONNECT exchange for exactly
+    that destination and those credentials, from its first byte, as far as the proxy's replies
+    on this connection (conn.stream) allowed it to go.  Returns (key, why) or None."""
+    proto, host, port, auth = case
+    data = conn.received
+    key = 'c16:proxy-connection-bytes'
+    if not data:
+        if conn.recvs:
+            return key, 'the client asked this connection for a reply without having sent anything on it'
+        return None
+    user = auth[0].encode() if auth is not None else b''
+    if proto in ('4', '4a'):
+        bad = check_socks4_request(data, proto, host, port, user)
+        return (key, 'connection received ' + data.hex() + ': ' + bad[1]) if bad else None
+    g = parse_greeting(data)
+    if g is None:
+        return key, f'connection received {data.hex()}: no greeting at the start'
+    rest, g['rest'] = g['rest'], b''
+    if not methods_ok(g, auth):
+        return key, f'connection received {data.hex()}: greeting parses to {g}'
+    if not rest:
+        return None
+    offered = (0, 2) if auth is not None else (0,)
+    st = conn.stream
+    sel = st[1] if len(st) >= 2 and st[0] == 5 and st[1] in offered else None
+    def delivered_when_byte(offset):
+        """reply bytes the client had been given when it sent the byte at `offset`"""
+        cum = 0
+        for m, pos in conn.sent:
+            if cum + len(m) > offset:
+                return pos
+            cum += len(m)
+        return len(st)
+    glen = len(data) - len(rest)
+    if sel is None or delivered_when_byte(glen) < 2:
+        return key, (f'connection received {rest.hex()} after the greeting although the proxy had not '
+                     f'selected an offered method (replies {st[:2].hex()})')
+    if sel == 2:
+        u = parse_userpass(rest)
+        want_u = dict(ver=1, ulen=len(user), user=user, plen=len(auth[1].encode()),
+                      password=auth[1].encode())
+        if u is None:
+            return key, f'method 2 selected: {rest.hex()} is not an RFC 1929 message'
+        rest = u.pop('rest')
+        if u != want_u:
+            return key, f'server parses credentials {u}, expected {want_u}'
+        if not rest:
+            return None
+        if st[2:4] != b'\x01\x00' or delivered_when_byte(len(data) - len(rest)) < 4:
+            return key, 'CONNECT sent although the proxy had not accepted the credentials'
+    atyp, addr = expected_connect(host, port)
+    want_conn = dict(ver=5, cmd=1, rsv=0, atyp=atyp, addr=addr, port=port, rest=b'')
+    c = parse_connect(rest)
+    if c != want_conn:
+        return key, f'server parses CONNECT {c}, expected {want_conn} (connection received {data.hex()})'
+    return None
+
+
 # ------------------------------------------------------------------ implementation side
 DIALOGUES5 = ([], [b'\x05\x00'], [b'\x05\x02', b'\x01\x00'])
 
 
 def impl_case(mods, case, stub=False, light=False):
-    """Returns (text in the driver's output format, ctor exception, raw dialogues).
-    light: SOCKS5 runs only the `05 00` dialogue (greeting + CONNECT)."""
-    proto = case[0]
+    """Returns (text in the driver's output format, ctor exception, raw dialogues, addr_ok).
+    light: SOCKS5 runs only the `05 00` dialogue (greeting + CONNECT).
+    addr_ok False: the real NetAddress refused the destination (nothing reached the classes)."""
+    proto, host, port, auth = case
     dialogues = (DIALOGUES5[1:2] if light else DIALOGUES5) if proto == '5' else ([],)
     outs, raws = [], []
+    try:
+        addr = sc.make_address(mods, host, port, stub)
+    except Exception as e:          # observed: the destination is not one the client accepts
+        return 'A:' + sc.exc_name(e), e, [], False
     for chunks in dialogues:
         try:
-            client = sc.make_client(mods, case, stub)
+            client = mods.cls[proto](addr, sc.make_auth(mods, auth))
         except Exception as e:     # observed, classified by the oracle
-            return 'E:' + sc.exc_name(e), e, []
+            return 'E:' + sc.exc_name(e), e, [], True
         out, raw = sc.drive_object(mods, client, chunks)
         outs.append(' '.join(out))
         raws.append(raw)
-    return ' | '.join(outs), None, raws
+    return ' | '.join(outs), None, raws, True
 
 
 def random_auth_check(mods, res):
@@ -276,6 +404,8 @@ CH = {1: 'a', 2: 'é', 3: '€', 4: '\U0001F600'}
 ADDR4 = [bytes(x) for x in ([0, 0, 0, 0], [0, 0, 0, 1], [0, 0, 0, 255], [0, 0, 1, 0], [1, 0, 0, 0],
                             [127, 0, 0, 1], [255, 255, 255, 255], [8, 8, 8, 8], [0, 1, 0, 1],
                             [10, 0, 0, 0], [192, 168, 0, 255], [1, 2, 3, 4], [4, 3, 2, 1])]
+ZONED6 = [b'\xfe\x80' + bytes(13) + b'\1', b'\xfe\x80' + bytes(6) + bytes(range(8)), bytes(range(16)),
+          b'\xff\x02' + bytes(13) + b'\1']
 ADDR6 = [bytes(16), bytes(15) + b'\1', b'\xff' * 16, bytes(10) + b'\xff\xff' + bytes([1, 2, 3, 4]),
          bytes(range(16)), bytes(range(240, 256)), b'\x20\x01\x0d\xb8' + bytes(12), b'\1' + bytes(15)]
 
@@ -343,6 +473,15 @@ def corner_cases():
         for a in ADDR6:
             yield (proto, ('6', a), 443, None)
             yield (proto, ('6', a), 65535, ('u', 'p'))
+        # zone-scoped IPv6 (fe80::1%eth0 and friends): the zone has no place in any request
+        for a in ZONED6:
+            yield (proto, ('z', a), 443, None)
+            yield (proto, ('z', a), 80, ('u', 'p'))
+        # every SOCKS4a marker address 0.0.0.x and its neighbours
+        for x in range(256):
+            yield (proto, ('4', bytes([0, 0, 0, x])), 80, None)
+        for a in ([0, 0, 1, 1], [0, 1, 0, 0], [1, 0, 0, 1], [0, 0, 0, 7]):
+            yield (proto, ('4', bytes(a)), 1080, ('u', 'p'))
     # NUL / odd characters in credentials
     for proto in ('4', '4a', '5'):
         for host in (V4, NAME, V6):
@@ -369,7 +508,8 @@ def random_case(rng):
     if r < 0.4:
         host = ('4', bytes(rng.choice((0, 0, 1, 127, 255, rng.randrange(256))) for _ in range(4)))
     elif r < 0.6:
-        host = ('6', bytes(rng.choice((0, 0, 255, rng.randrange(256))) for _ in range(16)))
+        host = ('6' if rng.random() < 0.85 else 'z',
+                bytes(rng.choice((0, 0, 255, rng.randrange(256))) for _ in range(16)))
     else:
         host = ('n', name_of_length(rng.choice((1, 2, 3, 10, 63, 64, 65, 127, 252, 253,
                                                  rng.randint(1, 253))), rng))
@@ -422,15 +562,238 @@ def malformed_cases():
         yield (proto, ('n', 'K' * 100), 80, None)
 
 
+def refused_name_cases():
+    """host names outside C18's grammar given to the REAL NetAddress (no stub): it must refuse
+    them, so they never reach the protocol classes; if a regression lets one through, the
+    oracle applies in full (the destination is then one "the client accepts")"""
+    lab = 'x' * 63
+    n253 = '.'.join([lab, lab, lab, 'y' * 61])
+    names = ['a\0b', '\0', 'a.b\0', 'a\0.com', '\xe9.com', 'a.\u212a', 'ſ.com', 'a' * 64 + '.com',
+             n253 + 'y', n253 + 'y.', n253 + '.y', 'a..b', '-a.com', 'a-.com', 'a b.com', '', '.',
+             'a\n', 'a.com\n', '1.2.3.4.', '300.1.1.1', 'x' * 255, 'x' * 300, '\ud800.com',
+             'a\x7f.com', 'a/b', 'a:b']
+    for proto in ('4', '4a', '5'):
+        for n in names:
+            yield (proto, ('n', n), 80, None)
+            yield (proto, ('n', n), 443, ('u', 'p'))
+        # valid boundary names go through
+        for n in (n253, n253 + '.', 'a', 'a.', '_x.y-z.w0'):
+            yield (proto, ('n', n), 80, None)
+
+
+def tuple_auth_check(mods, ctx, res):
+    """credentials given as a plain tuple instead of a SOCKSUserAuth (assumption listed in
+    props/C16.json: such an object is "no credentials"): the classes must behave exactly as
+    with `None` - model line with auth `-`; judged by the oracle as "no credentials given" """
+    cases, texts = [], []
+    for proto in ('4', '4a', '5'):
+        for host in (V4, NAME, V6):
+            for tup in (('u', 'p'), ('a\0b', ''), ('', ''), ['u', 'p']):
+                case = (proto, host, 80, None)
+                try:
+                    addr = sc.make_address(mods, host, 80)
+                    dialogs = DIALOGUES5 if proto == '5' else ([],)
+                    outs, raws = [], []
+                    for ch in dialogs:
+                        o, r = sc.drive_object(mods, mods.cls[proto](addr, tup), ch)
+                        outs.append(' '.join(o))
+                        raws.append(r)
+                    text, exc = ' | '.join(outs), None
+                except Exception as e:      # observed
+                    text, exc, raws = 'E:' + sc.exc_name(e), e, []
+                bad = oracle(mods, case, exc, raws)
+                if bad:
+                    res.violation(bad[0], dict(sc.case_json(case), tuple_auth=list(tup)), bad[1], impl=text[:300])
+                cases.append(case)
+                texts.append(text)
+    model = ctx.model([sc.enc_case(c) for c in cases])
+    for c, t, m in zip(cases, texts, model or texts):
+        if dialogue_observable(m) != dialogue_observable(t):
+            res.disagreement(dict(sc.case_json(c), tuple_auth=True), t[:400], m[:400])
+    res['scopes']['tuple_auth_objects'] = len(cases)
+    res['evaluations'] += len(cases)
+
+
+# ------------------------------------------------------------------ through create_connection
+GRANT = {'4': bytes([0, 90, 0, 0, 0, 0, 0, 0]), '4a': bytes([0, 90, 0, 0, 0, 0, 0, 0]),
+         '5': bytes([5, 0, 5, 0, 0, 1, 0, 0, 0, 0, 0, 0])}
+GRANT5A = bytes([5, 2, 1, 0, 5, 0, 0, 1, 0, 0, 0, 0, 0, 0])
+
+
+def attempt_pool(proto, auth):
+    """what one address of the proxy may meet: grants, failures at every stage of the handshake
+    (so that a protocol object carried over to the next address would be in every possible
+    state), socket-level failures"""
+    if proto != '5':
+        g = GRANT[proto]
+        streams = [g, g[:1], g[:4], b'', bytes([0, 91]) + g[2:], bytes([4, 90]) + g[2:], g + b'\x16\x03']
+    else:
+        g = GRANT['5']
+        streams = [g, b'', b'\x05', b'\x05\x00', b'\x05\x00\x05', g[:7], b'\x05\xff', b'\x04\x00',
+                   b'\x05\x00\x05\x05\x00\x01' + bytes(6), g + b'\x16']
+        if auth is not None:
+            streams += [GRANT5A, b'\x05\x02', b'\x05\x02\x01', b'\x05\x02\x01\x00', b'\x05\x02\x01\x01',
+                        GRANT5A[:9]]
+    return [('x',), ('s',)] + [('t', st) for st in streams] + [('p', streams[0])]
+
+
+def enc_attempt(a):
+    if a[0] in 'xs':
+        return a[0]
+    return ('p' if a[0] == 'p' else '') + (a[1].hex() or '-')
+
+
+def world_attempt(a, rng=None):
+    if a[0] in 'xs':
+        return a
+    segs = [] if rng is None else [rng.randint(1, 4) for _ in range(rng.randint(0, 3))]
+    return (a[0], a[1], segs)
+
+
+def px_cases(deep, rng):
+    """(case, attempts): one create_connection call, the proxy's address resolving to 1..3
+    entries; the last entry grants in most cases so that fall-back after every kind of
+    failure is exercised"""
+    dests = {'4': [V4, ('4', bytes([0, 0, 0, 9])), V6], '4a': [NAME, V4, ('4', bytes([0, 0, 0, 9])), V6],
+             '5': [NAME, V4, V6, ('z', ZONED6[0])]}
+    for proto in ('4', '4a', '5'):
+        for auth in (None, ('user', 'pw')):
+            pool = attempt_pool(proto, auth)
+            grant = ('t', GRANT5A if (proto == '5' and auth) else GRANT[proto])
+            for di, host in enumerate(dests[proto]):
+                port = 1000 + di
+                for a in pool:
+                    yield (proto, host, port, auth), [a]
+                    yield (proto, host, port, auth), [a, grant]
+                    if di == 0 or deep:
+                        for b in pool:
+                            yield (proto, host, port, auth), [a, b]
+                            if deep or rng.random() < 0.08:
+                                yield (proto, host, port, auth), [a, b, grant]
+
+
+def impl_px(mods, case, attempts, rng=None):
+    proto, host, port, auth = case
+    w = sw.World()
+    w.add_call(0, [[world_attempt(a, rng) for a in attempts]])
+    proxy = sw.make_proxy(mods, proto, auth)
+    with sw.patched(mods, w):
+        with sw.watchdog(5.0):
+            r = sw.run_one(w, 0, proxy.create_connection(sw.Factory(), sc.host_string(host), port))
+    return r, w
+
+
+def px_text(result, call, group=0):
+    """same format as the driver's `px` output"""
+    tried = max([c.index + 1 for c in call.conns if c.group == group] +
+                [call.tried.get(group, 0)])
+    by_index = {c.index: c for c in call.conns if c.group == group}
+    parts = [(by_index[i].received.hex() or '-') if i in by_index else '.' for i in range(tried)]
+    name = sw.outcome_name(result, _mods.socks if _mods else None)
+    return ' | '.join([('connected' if name == 'ok' else 'E:' + name)] + parts)
+
+
+def oracle_px(mods, case, result, conns):
+    """create_connection for one destination: every connection made must carry the exchange
+    for that destination from its first byte; an inexpressible destination must be refused with
+    a SOCKS error and no connection may have received a byte"""
+    sc_, reason = scope(case)
+    if sc_ is None:
+        return None
+    if sc_ == 'inexpress':
+        got = [c for c in conns if c.received]
+        if got:
+            return (inexpress_key(reason), f'{reason}, but the proxy received {got[0].received.hex()}')
+        if result[0] == 'ok' or not isinstance(result[1], mods.socks.SOCKSError):
+            return ('c16:inexpressible-wrong-exception',
+                    f'{reason}: create_connection gave {sw.outcome_name(result, mods.socks)}, not a SOCKS error')
+        return None
+    for c in conns:
+        bad = check_connection(case, c)
+        if bad:
+            return bad
+    if result[0] == 'ok':
+        last = conns[-1] if conns else None
+        if last is None or not last.received:
+            return 'c16:proxy-connection-bytes', 'create_connection succeeded without sending a request'
+    return None
+
+
+def cc_cases(deep, rng):
+    """two (or three) concurrent create_connection calls on ONE SOCKSProxy object, different
+    destinations, interleaved at the awaits of the (fake) loop by a schedule"""
+    for proto in ('5', '4a', '4'):
+        for auth in (None, ('user', 'pw')):
+            if proto == '4':
+                dests = [(('4', bytes([10, 0, 0, 1])), 1001), (('4', bytes([10, 0, 0, 2])), 1002),
+                         (('4', bytes([10, 0, 0, 3])), 1003)]
+            else:
+                dests = [(('n', 'one.example'), 1001), (('n', 'two.example'), 1002), (('4', bytes([10, 0, 0, 3])), 1003)]
+            g = ('t', GRANT5A if (proto == '5' and auth) else GRANT[proto])
+            fail = ('t', b'\x05\x00\x05' if proto == '5' else b'\x00')
+            plans = [[[g], [g]], [[fail, g], [g]], [[g], [('x',), g]], [[fail, g], [fail, g]], [[g], [g], [g]]]
+            for plan in plans:
+                n = len(plan)
+                scheds = [[i % n for i in range(60)], [0] * 2 + [1] * 3 + [0, 1] * 30,
+                          [1] * 4 + [0] * 4 + [1, 0] * 30, []]
+                for _ in range(6 if deep else 2):
+                    scheds.append([rng.randrange(n) for _ in range(80)])
+                for sched in scheds:
+                    yield proto, auth, dests[:n], plan, sched
+
+
+def impl_cc(mods, proto, auth, dests, plan, sched):
+    w = sw.World(yields=True)
+    proxy = sw.make_proxy(mods, proto, auth)
+    coros = {}
+    with sw.patched(mods, w):
+        for i, ((host, port), attempts) in enumerate(zip(dests, plan)):
+            w.add_call(i, [[world_attempt(a) for a in attempts]])
+            coros[i] = proxy.create_connection(sw.Factory(), sc.host_string(host), port)
+        with sw.watchdog(5.0):
+            sw.run_interleaved(w, coros, sched)
+    return w
+
+
+def rs_cases():
+    """create_connection(resolve=True): the destination resolves to several addresses, each is
+    asked of the proxy in turn (`_connect`); every connection must carry the address it was
+    opened for"""
+    for proto in ('5', '4'):
+        g = ('t', GRANT[proto])
+        fail = ('t', b'\x05\x00\x05\x01\x00\x01' + bytes(6) if proto == '5' else bytes([0, 91]) + bytes(6))
+        cut = ('t', b'\x05\x00' if proto == '5' else b'\x00\x5a')
+        for plan in ([[g]], [[fail], [g]], [[cut], [g]], [[('x',)], [fail], [g]], [[fail, cut], [cut, g]],
+                     [[fail], [cut]], [[fail], [fail]]):
+            yield proto, plan
+
+
+def impl_rs(mods, proto, plan):
+    import socket
+    infos = [(socket.AF_INET, socket.SOCK_STREAM, 6, '', (f'10.1.0.{i + 1}', 2000 + i)) for i in range(len(plan))]
+    w = sw.World(dest_infos={'dest.test': infos})
+    w.add_call(0, [[world_attempt(a) for a in g] for g in plan])
+    proxy = sw.make_proxy(mods, proto, None)
+    with sw.patched(mods, w):
+        with sw.watchdog(5.0):
+            r = sw.run_one(w, 0, proxy.create_connection(sw.Factory(), 'dest.test', 80, resolve=True))
+    dests = [(('4', bytes([10, 1, 0, i + 1])), 2000 + i) for i in range(len(plan))]
+    return r, w, dests
+
+
 def corpus_cases(verif):
+    """-> (object cases, px cases); a px line is `px <case> <attempt> ...`"""
     path = os.path.join(verif, 'corpus', 'C16.txt')
-    out = []
+    out, px = [], []
     if os.path.exists(path):
         for line in open(path):
             line = line.split('#')[0].strip()
-            if line:
+            if line.startswith('px '):
+                toks = line.split()
+                px.append((sc.dec_case(' '.join(toks[1:5])), [dec_attempt(t) for t in toks[5:]]))
+            elif line:
                 out.append(sc.dec_case(line))
-    return out
+    return out, px
 
 
 # ------------------------------------------------------------------ evaluation
@@ -439,16 +802,20 @@ _mods = None
 
 def _init(repo):
     global _mods
-    _mods = sc.Mods(repo)
+    if _mods is None or _mods.repo != repo:
+        _mods = sc.Mods(repo)
+        _mods.repo = repo
 
 
 def _impl_batch(args):
     cases, stub, light = args
     res = []
     for case in cases:
-        text, ctor_exc, raws = impl_case(_mods, case, stub, light)
-        bad = oracle(_mods, case, ctor_exc, raws, light) if not stub else None
-        res.append((text, bad, scope(case)[0] if not stub else 'stub'))
+        text, ctor_exc, raws, addr_ok = impl_case(_mods, case, stub, light)
+        bad = oracle(_mods, case, ctor_exc, raws, light, addr_ok) if not stub else None
+        sc_ = scope(case, addr_ok)[0]
+        res.append((text, bad, ('stub' if stub else 'netaddress_refused' if (sc_ is None and not addr_ok)
+                                else sc_)))
     return res
 
 
@@ -472,8 +839,11 @@ def evaluate(ctx, cases, res, scope_name, stub=False, light=False):
     for i, (case, (text, bad, sc_)) in enumerate(zip(cases, outs)):
         if bad:
             res.violation(bad[0], sc.case_json(case), bad[1], impl=text[:300])
-        if model is not None and model[i] != text:
-            res.disagreement(sc.case_json(case), text[:400], model[i][:400], stub=stub)
+        # a destination the real NetAddress refuses never reaches the modelled classes
+        if model is not None and sc_ != 'netaddress_refused':
+            if dialogue_observable(model[i]) != dialogue_observable(text):
+                res.disagreement(sc.case_json(case), text[:400], model[i][:400], stub=stub)
+            res.count('need_counts_as_model' if model[i] == text else 'need_counts_differ')
         res.count(f'scope_{sc_}')
         res.count(f'proto_{case[0]}')
         res.count(f'host_{case[1][0]}')
@@ -492,12 +862,114 @@ def evaluate(ctx, cases, res, scope_name, stub=False, light=False):
     return outs
 
 
+def dialogue_observable(text):
+    """messages / None / exceptions of each dialogue; NeedData counts are C17's business (and
+    even there an implementation choice)"""
+    return [sc.observable_tokens(d.split()) for d in text.split(' | ')]
+
+
+def px_json(case, attempts):
+    return {'op': 'px', 'line': sc.enc_case(case), 'attempts': [enc_attempt(a) for a in attempts]}
+
+
+def eval_px(ctx, cases, res, scope_name, rng=None):
+    """one create_connection call each: per-connection bytes and the result vs the model's
+    `px`; oracle per connection"""
+    cases = list(cases)
+    _init(ctx.repo)
+    texts = []
+    for case, attempts in cases:
+        r, w = impl_px(_mods, case, attempts, rng)
+        call = w.calls[0]
+        text = px_text(r, call)
+        texts.append(text)
+        bad = oracle_px(_mods, case, r, call.conns)
+        if bad:
+            res.violation(bad[0], px_json(case, attempts), bad[1], impl=text[:300])
+        res.count('px_' + text.split(' | ')[0])
+        res.count('px_connections', len(call.conns))
+        res.count('px_fallback_after_talking', sum(1 for c in call.conns[:-1] if c.received))
+        if len(call.conns) > 1:
+            res.nontrivial(('px', sc.enc_case(case), tuple(enc_attempt(a) for a in attempts)))
+    model = ctx.model(['px ' + sc.enc_case(c) + ' ' + ' '.join(enc_attempt(a) for a in at)
+                       for c, at in cases])
+    for (case, attempts), t, m in zip(cases, texts, model or texts):
+        if m != t:
+            res.disagreement(px_json(case, attempts), t[:400], m[:400])
+    res['evaluations'] += len(cases)
+    res['scopes'][scope_name] = res['scopes'].get(scope_name, 0) + len(cases)
+
+
+def eval_cc(ctx, cases, res, scope_name):
+    """concurrent calls on one proxy object: each call's connections must carry that call's
+    destination; per call the result and bytes equal the model's (sequential) `px`"""
+    cases = list(cases)
+    _init(ctx.repo)
+    lines, texts, metas = [], [], []
+    for proto, auth, dests, plan, sched in cases:
+        w = impl_cc(_mods, proto, auth, dests, plan, sched)
+        cj = {'op': 'cc', 'proto': proto, 'auth': list(auth) if auth else None,
+              'dests': [[sc.enc_host(h), p] for h, p in dests],
+              'plan': [[enc_attempt(a) for a in g] for g in plan], 'schedule': sched}
+        for i, ((host, port), attempts) in enumerate(zip(dests, plan)):
+            case = (proto, host, port, auth)
+            call = w.calls[i]
+            bad = oracle_px(_mods, case, call.result or ('exc', sc.Livelock()), call.conns)
+            text = px_text(call.result, call)
+            if bad:
+                res.violation(bad[0], cj, f'call {i} ({sc.enc_host(host)}:{port}): {bad[1]}', impl=text[:300])
+            lines.append('px ' + sc.enc_case(case) + ' ' + ' '.join(enc_attempt(a) for a in attempts))
+            texts.append(text)
+            metas.append((cj, i))
+        res.count('cc_calls', len(dests))
+        res.nontrivial(('cc', proto, auth is not None, len(dests), tuple(sched[:12])))
+    model = ctx.model(lines)
+    for (cj, i), t, m in zip(metas, texts, model or texts):
+        if m != t:
+            res.disagreement(dict(cj, call=i), t[:400], m[:400])
+    res['evaluations'] += len(cases)
+    res['scopes'][scope_name] = res['scopes'].get(scope_name, 0) + len(cases)
+
+
+def eval_rs(ctx, cases, res, scope_name):
+    cases = list(cases)
+    _init(ctx.repo)
+    lines, texts, metas = [], [], []
+    for proto, plan in cases:
+        r, w, dests = impl_rs(_mods, proto, plan)
+        call = w.calls[0]
+        cj = {'op': 'rs', 'proto': proto, 'plan': [[enc_attempt(a) for a in g] for g in plan]}
+        for k, ((host, port), attempts) in enumerate(zip(dests, plan)):
+            conns = [c for c in call.conns if c.group == k]
+            for c in conns:
+                bad = check_connection((proto, host, port, None), c)
+                if bad:
+                    res.violation(bad[0], cj, f'remote address {k} ({sc.enc_host(host)}:{port}): {bad[1]}',
+                                  impl=c.received.hex())
+            if k in call.tried:
+                lines.append('px ' + sc.enc_case((proto, host, port, None)) + ' '
+                             + ' '.join(enc_attempt(a) for a in attempts))
+                texts.append(px_text(None, call, k).split(' | ', 1)[1:])
+                metas.append((cj, k))
+        res.count('rs_' + sw.outcome_name(r, _mods.socks))
+    model = ctx.model(lines)
+    for (cj, k), t, m in zip(metas, texts, model or []):
+        if m.split(' | ', 1)[1:] != t:
+            res.disagreement(dict(cj, remote_address=k), ' | '.join(t)[:400], m[:400])
+    res['evaluations'] += len(cases)
+    res['scopes'][scope_name] = res['scopes'].get(scope_name, 0) + len(cases)
+
+
 RULE = ('case = (protocol class, destination, port, credentials); the real constructor and '
         'next_message() dialogues (no reply / method 0 selected / method 2 selected then '
         'accepted) are compared with the model and judged by server-side parsers written from '
-        'the protocol documents; distinct non-trivial = distinct cases inside the property\'s '
-        'quantifier (expressible or inexpressible; lone-surrogate credentials and stub-only '
-        'inputs are counted separately and compared with the model only)')
+        'the protocol documents; px/cc/rs cases drive the public create_connection on a fake '
+        'network (1..3 proxy addresses with failures at every stage of the handshake, two or '
+        'three concurrent calls on one proxy object under several schedules, several remote '
+        'addresses) and judge the bytes each proxy connection received; distinct non-trivial = '
+        'distinct cases inside the property\'s quantifier (expressible or inexpressible; '
+        'lone-surrogate credentials, names the real NetAddress refuses and stub-only inputs are '
+        'counted separately), plus distinct multi-connection scenarios')
 
 
 def run(ctx):
@@ -505,12 +977,19 @@ def run(ctx):
     rng = ctx.rng
     _init(ctx.repo)
     # (a) corpus first
-    cc = corpus_cases(ctx.verif)
+    cc, cpx = corpus_cases(ctx.verif)
     if cc:
         evaluate(ctx, cc, res, 'corpus')
-    # (b) exhaustive scopes
+    if cpx:
+        eval_px(ctx, cpx, res, 'corpus')
+    # (b) through create_connection: fall-back, concurrency, several remote addresses
+    eval_px(ctx, px_cases(ctx.deep, rng), res, 'create_connection_fallback', rng if ctx.deep else None)
+    eval_cc(ctx, cc_cases(ctx.deep, rng), res, 'create_connection_concurrent')
+    eval_rs(ctx, rs_cases(), res, 'create_connection_resolve')
+    # (c) exhaustive scopes
     evaluate(ctx, corner_cases(), res, 'address_and_credential_corners')
     evaluate(ctx, name_cases(rng), res, 'names_every_length_1_253')
+    evaluate(ctx, refused_name_cases(), res, 'names_netaddress_must_refuse')
     evaluate(ctx, credential_cases(range(0, 301)), res, 'credential_bytelengths_0_300')
     hosts = {'4': [V4], '4a': [V4, NAME], '5': [V4, NAME, V6]}
     if ctx.deep:
@@ -523,16 +1002,30 @@ def run(ctx):
         # SOCKS5: greeting + CONNECT only (the dialogue that carries the port)
         evaluate(ctx, port_cases(hosts), res, 'every_port', light=True)
         all_ports = True
-    # (c) seeded structured generator
+    # (d) seeded structured generator
     ngen = 150000 if ctx.deep else 12000
     gen = [random_case(rng) for _ in range(ngen)]
     outs = evaluate(ctx, gen, res, 'generated')
     for c, o in list(zip(gen, outs))[:3]:
         res.sample({'case': sc.enc_case(c), 'impl': o[0][:200]})
-    # (d) malformed stream (stub address objects): model vs code only
+    # (e) malformed stream (stub address objects): model vs code only
     evaluate(ctx, malformed_cases(), res, 'malformed_stub', stub=True)
     random_auth_check(_mods, res)
+    tuple_auth_check(_mods, ctx, res)
     return res.finish(RULE, exhaustive=all_ports and not res.failed)
+
+
+def dec_attempt(tok):
+    if tok in ('x', 's'):
+        return (tok,)
+    if tok.startswith('p'):
+        return ('p', bytes.fromhex(tok[1:]) if tok[1:] != '-' else b'')
+    return ('t', bytes.fromhex(tok) if tok != '-' else b'')
+
+
+def dec_host(tok):
+    kind, v = tok.split(':')
+    return ('n', sc.dec_cps(v)) if kind == 'n' else (kind, bytes.fromhex(v))
 
 
 def replay(ctx, case):
@@ -540,6 +1033,16 @@ def replay(ctx, case):
         case = case['case']
     res = Results()
     _init(ctx.repo)
-    evaluate(ctx, [sc.dec_case(case['line'])], res, 'replay', stub=bool(case.get('stub')))
+    op = case.get('op')
+    if op == 'px':
+        eval_px(ctx, [(sc.dec_case(case['line']), [dec_attempt(t) for t in case['attempts']])], res, 'replay')
+    elif op == 'cc':
+        eval_cc(ctx, [(case['proto'], tuple(case['auth']) if case['auth'] else None,
+                       [(dec_host(h), p) for h, p in case['dests']],
+                       [[dec_attempt(t) for t in g] for g in case['plan']], case['schedule'])], res, 'replay')
+    elif op == 'rs':
+        eval_rs(ctx, [(case['proto'], [[dec_attempt(t) for t in g] for g in case['plan']])], res, 'replay')
+    else:
+        evaluate(ctx, [sc.dec_case(case['line'])], res, 'replay', stub=bool(case.get('stub')))
     res.sample(case)
     return res.finish('replay of one recorded case')
